@@ -16,7 +16,8 @@ from harness import vlib
 
 FIELDS = ["type", "kind", "shape"]     # discriminator key names; id = position
 FIELD = FIELDS[0]
-N_ENUM = 64          # members of the StrEnum used for enum-styled tags
+N_ENUM = 200         # members of the StrEnum used for enum-styled tags
+KERR_MARKER = 999    # Discr.kerr_marker: the input carries the key "kerr"
 
 PREAMBLE = """
 from dataclasses import dataclass, field
@@ -40,10 +41,19 @@ IE = IntEnum("IE", {"Z0": 0, "Z1": 1, "Z2": 2})
 IE.__module__ = __name__
 SE = StrEnum("SE", {"EMPTY": "", "T": "t"})
 SE.__module__ = __name__
-TAGS = {}
+TAGS = [{}, {}]          # one table per tagger function
 
-def tagger(cls):
-    return TAGS.get(cls.__name__, [])
+def tagger0(cls):
+    return TAGS[0].get(cls.__name__, [])
+
+def tagger1(cls):
+    return TAGS[1].get(cls.__name__, [])
+
+def kerr_hook(cls, d):
+    # a variant whose own from_dict leaks a KeyError (e.g. a hook indexing a mapping) on inputs carrying the marker
+    if "kerr" in d:
+        raise KeyError("kerr")
+    return d
 """ % N_ENUM
 
 
@@ -132,7 +142,7 @@ def disc_src(s: dict) -> str:
     if s["sup"]:
         args.append("include_supertypes=True")
     if s["tagger"]:
-        args.append("variant_tagger_fn=tagger")
+        args.append(f"variant_tagger_fn=tagger{s.get('tgid', 0)}")
     return "Discriminator(" + ", ".join(args) + ")"
 
 
@@ -143,7 +153,7 @@ def class_src(c: dict, style: str, kind: str) -> str:
         bases = "" if c["plain"] else "DataClassDictMixin"
     lines = ["@dataclass", f"class C{c['id']}({bases}):" if bases else f"class C{c['id']}:"]
     body = []
-    if kind == "field":
+    if kind in ("field", "mixed"):
         for fid, tg in sorted(c["own_tags"].items()):
             v, t = tag_src(style, tg, True, c.get("own_js", {}).get(fid, 0))
             d = c["decl"]
@@ -160,13 +170,19 @@ def class_src(c: dict, style: str, kind: str) -> str:
                 body.append(f"{fname}: Literal[{v}] = {v}")
             else:
                 body.append(f"{fname}: Final[{t}] = {v}")
-        if not c["parents"]:
-            body.append("x: int = 0")
-        for f in c["own_req"]:
-            body.append(f"y{f}: int = {f}")
+        if kind == "mixed":               # tags AND required fields: no defaulted field anywhere
+            for f in c["own_req"]:
+                body.append(f"f{f}: int")
+        else:
+            if not c["parents"]:
+                body.append("x: int = 0")
+            for f in c["own_req"]:
+                body.append(f"y{f}: int = {f}")
     else:
         for f in c["own_req"]:
             body.append(f"f{f}: int")
+    if c.get("kerr"):
+        body.append("__pre_deserialize__ = classmethod(kerr_hook)")
     if c["config"] is not None:
         body.append("class Config(BaseConfig):")
         if c["config"].get("dialects"):
@@ -175,12 +191,13 @@ def class_src(c: dict, style: str, kind: str) -> str:
     if not body:
         body.append("pass")
     src = "\n".join(lines + ["    " + b for b in body]) + "\n"
-    if c["ttags"] is not None:
-        vals = [tag_src(style, k, False, j)[0] for k, j in zip(c["ttags"], c.get("ttag_js") or [0] * len(c["ttags"]))]
+    for g, tgs in sorted((c["ttags"] or {}).items()):
+        js = (c.get("ttag_js") or {}).get(g) or [0] * len(tgs)
+        vals = [tag_src(style, k, False, j)[0] for k, j in zip(tgs, js)]
         if c["ttag_bare"] and len(vals) == 1:
-            src += f"TAGS['C{c['id']}'] = {vals[0]}\n"
+            src += f"TAGS[{g}]['C{c['id']}'] = {vals[0]}\n"
         else:
-            src += f"TAGS['C{c['id']}'] = [{', '.join(vals)}]\n"
+            src += f"TAGS[{g}]['C{c['id']}'] = [{', '.join(vals)}]\n"
     return src
 
 
@@ -212,8 +229,12 @@ def site_type_src(s: dict) -> str:
 
 def site_create_src(s: dict) -> str:
     if s["wiring"] == "codec":
-        return f"{s['name']} = BasicDecoder({site_type_src(s)})\n"
-    return f"@dataclass\nclass {s['name']}(DataClassDictMixin):\n    v: {site_type_src(s)}\n"
+        dd = ", default_dialect=D1" if s.get("dialects") else ""
+        return f"{s['name']} = BasicDecoder({site_type_src(s)}{dd})\n"
+    src = f"@dataclass\nclass {s['name']}(DataClassDictMixin):\n    v: {site_type_src(s)}\n"
+    if s.get("dialects"):
+        src += "    class Config(BaseConfig):\n        code_generation_options = [ADD_DIALECT_SUPPORT]\n"
+    return src
 
 
 def decode_step(s: dict, inp: dict) -> dict:
@@ -232,13 +253,18 @@ def mro_ok(mirror: list, parents: list) -> bool:
 
 def gen_history(rng, stream: str = "main", max_ops: int = 40) -> Hist:
     """stream "main": inside the domain of the correspondence; stream "kf": no-field mode through a
-    holder over plain dataclasses (region of the known finding nofield-inherited-unpacker)."""
+    holder over plain dataclasses (region of the known finding nofield-inherited-unpacker).
+    kind "field": every dispatcher looks at a key; "nofield": none does; "mixed": classes carry tags AND required
+    fields, every dispatcher picks its mode (a no-field dispatcher below a field one and vice versa)."""
     if stream == "kf":
         kind = "nofield"
     else:
-        kind = "field" if rng.random() < 0.72 else "nofield"
+        r = rng.random()
+        kind = "field" if r < 0.6 else ("mixed" if r < 0.78 else "nofield")
+    has_tags = kind in ("field", "mixed")
+    has_req = kind in ("nofield", "mixed")
     style = rng.choice(["str", "int", "enum", "mixed"])
-    if kind == "field" and rng.random() < 0.4:
+    if has_tags and rng.random() < 0.4:
         # the tag VALUE spectrum: the first abstract ids are falsy values, None, bool/int/float/enum collisions, ...
         perm = list(range(len(SPECIAL)))
         rng.shuffle(perm)
@@ -247,24 +273,30 @@ def gen_history(rng, stream: str = "main", max_ops: int = 40) -> Hist:
     unique = rng.random() < 0.75
     # a variant validates its own `type` field: tagger tags differ from the attribute, and a non-field declaration
     # below a field declaration inherits the ancestor's annotation -> one declaration family per history
-    use_tagger = kind == "field" and rng.random() < 0.35
-    # call-time dialects (class-level wiring only, unique tags only: with duplicate tags a registry hit on a class that
-    # lacks the dialect's method triggers a refill - compiled-method state is not part of the model)
-    use_dialects = unique and rng.random() < 0.3
-    nonfield = use_tagger or rng.random() < (0.55 if spectrum else 0.35)
+    use_tagger = has_tags and rng.random() < 0.35
+    # call-time dialects (Config roots and holders with ADD_DIALECT_SUPPORT, codecs with default_dialect): the registries
+    # are shared by all dialects, a variant compiled on demand gets its default method (/repo 523ca35)
+    use_dialects = rng.random() < 0.3
+    nonfield = kind == "mixed" or use_tagger or rng.random() < (0.55 if spectrum else 0.35)
     decls = ["classvar", "plain"] if nonfield else (["field", "literal"] if spectrum else ["field", "literal", "final"])
-    # a Literal/typed `type` field validates the spelling it gets: only histories whose classes declare the tag as a
-    # non-field attribute (or use the tagger) mix the ==-equal spellings of one tag (False/0/0.0/IE.Z0, ''/SE.EMPTY ...)
     # discriminator key names in use: dispatchers of one hierarchy may look at different keys (an outer one at "type",
     # a nested one at "kind"); a class can carry a tag per key name.  A field-declared tag would validate the other
     # key's value when both keys are in the input -> two key names only with non-field declarations
-    n_keys = 2 if (kind == "field" and nonfield and rng.random() < 0.45) else 1
-    key_ids = rng.sample(range(len(FIELDS)), n_keys) if kind == "field" else [0]
+    n_keys = 2 if (has_tags and nonfield and rng.random() < 0.45) else 1
+    key_ids = rng.sample(range(len(FIELDS)), n_keys) if has_tags else [0]
+    # a Literal/typed `type` field validates the spelling it gets: only histories whose classes declare the tag as a
+    # non-field attribute (or use the tagger) mix the ==-equal spellings of one tag (False/0/0.0/IE.Z0, ''/SE.EMPTY ...)
     free_spelling = spectrum and nonfield
+    # some classes' own from_dict leaks a KeyError on inputs with the marker key (known finding variant-keyerror-misreported)
+    use_kerr = stream != "kf" and rng.random() < 0.2
     length = rng.randint(6, max_ops)
     classes: list[dict] = []
     mirror: list = []
     sites: list[dict] = []
+    # what one call decodes: {dialect: [site index] or the site indices of a multi-field holder}.  A holder compiled for
+    # a call-time dialect is a separate generated function with its OWN registries (fresh attribute names), so a
+    # holder site is one model site per dialect; Config roots share one registry across dialects; a codec has one dialect
+    units: list = []
     ops: list = []
     script: list = [{"op": "exec", "src": PREAMBLE}]
     op_of_step: list = [None]
@@ -281,6 +313,14 @@ def gen_history(rng, stream: str = "main", max_ops: int = 40) -> Hist:
             return next_tag[0] - 1
         return rng.randrange(0, 5)
 
+    def pick_mode() -> bool:
+        """field mode?"""
+        return kind == "field" or (kind == "mixed" and rng.random() < 0.6)
+
+    def new_config():
+        return {"field": pick_mode(), "sub": True, "sup": rng.random() < 0.3, "fid": rng.choice(key_ids),
+                "tagger": use_tagger and rng.random() < 0.6, "tgid": rng.randrange(2), "dialects": use_dialects and rng.random() < 0.7}
+
     def define(parents: list[int]):
         cid = len(classes)
         root = not parents
@@ -292,48 +332,55 @@ def gen_history(rng, stream: str = "main", max_ops: int = 40) -> Hist:
             else:
                 r = rng.random()
                 if r < 0.45:
-                    config = {"field": kind == "field", "sub": True, "sup": rng.random() < 0.3, "fid": rng.choice(key_ids),
-                              "tagger": use_tagger and rng.random() < 0.6, "dialects": use_dialects}
+                    config = new_config()
                 elif r < 0.7:
                     plain = True
         else:
             plain = classes[parents[0]]["plain"]
             # a non-root class that declares its own class-level discriminator: a dispatcher below a dispatcher
-            if not plain and stream != "kf" and rng.random() < (0.12 if n_keys == 2 else 0.06):
-                config = {"field": kind == "field", "sub": True, "sup": rng.random() < 0.3, "fid": rng.choice(key_ids),
-                          "tagger": use_tagger and rng.random() < 0.6, "dialects": use_dialects}
+            if not plain and stream != "kf" and rng.random() < (0.12 if (n_keys == 2 or kind == "mixed") else 0.06):
+                config = new_config()
+        if config is not None and not config["field"]:
+            config["tagger"] = False
         own_tags: dict = {}
         ttags = None
         own_req: list[int] = []
-        if kind == "field":
+        if has_tags:
             for fid in key_ids:
                 if rng.random() < 0.75:
                     own_tags[fid] = fresh_tag()
-            n = rng.choice([0, 1, 1, 1, 2, 3]) if rng.random() < 0.9 else 0
-            ttags = [fresh_tag() for _ in range(n)]
+            ttags = {}
+            for g in (0, 1):
+                n = rng.choice([0, 1, 1, 1, 2, 3]) if rng.random() < 0.9 else 0
+                ttags[g] = [fresh_tag() for _ in range(n)] if use_tagger else []
+        if kind == "field":
             if rng.random() < 0.3:
                 own_req = [next_field[0]]
                 next_field[0] += 1
-        else:
+        elif has_req:
             n = 1 if root else rng.choice([0, 1, 1, 2])
             for _ in range(n):
                 own_req.append(next_field[0])
                 next_field[0] += 1
         own_js = {fid: (rng.randrange(8) if free_spelling else 0) for fid in own_tags}
-        ttag_js = [rng.randrange(8) if free_spelling else 0 for _ in (ttags or [])]
+        ttag_js = {g: [rng.randrange(8) if free_spelling else 0 for _ in tgs] for g, tgs in (ttags or {}).items()}
+        kerr = use_kerr and rng.random() < 0.25
         c = {"id": cid, "parents": parents, "own_tags": own_tags, "ttags": ttags, "ttag_bare": rng.random() < 0.5,
-             "own_js": own_js, "ttag_js": ttag_js,
+             "own_js": own_js, "ttag_js": ttag_js, "kerr": kerr,
              "own_req": own_req, "decl": rng.choice(decls), "plain": plain, "config": config}
         classes.append(c)
         mirror.append(type(f"M{cid}", tuple(mirror[p] for p in parents), {}))
         root_of.append(cid if root else root_of[parents[0]])
-        ops.append(("define", list(parents), dict(own_tags), list(ttags or []), list(own_req)))
+        # in kind "field" the extra fields are defaulted: nothing is required
+        ops.append(("define", list(parents), dict(own_tags), {g: list(t) for g, t in (ttags or {}).items()},
+                    list(own_req) if has_req else [], kerr))
         script.append({"op": "exec", "src": class_src(c, style, kind)})
         op_of_step.append(len(ops) - 1)
         if config is not None:
             s = dict(config)
             s.update({"wiring": "config", "bases": [cid], "config": True, "name": f"C{cid}"})
             sites.append(s)
+            units.append({d: [len(sites) - 1] for d in ([None, "D1", "D2"] if s.get("dialects") else [None])})
 
     def pick_parents():
         p = rng.randrange(len(classes))
@@ -346,12 +393,10 @@ def gen_history(rng, stream: str = "main", max_ops: int = 40) -> Hist:
                         return cand
         return [p]
 
-    def new_site():
-        nonlocal other_sites
-        wiring = "holder" if stream == "kf" else rng.choice(["holder", "holder", "holder", "codec", "codec"])
+    def site_settings(wiring: str, mode_field: bool) -> dict:
         b = rng.randrange(len(classes)) if rng.random() < 0.5 else rng.choice([c["id"] for c in classes if not c["parents"]])
         bases = [b]
-        if rng.random() < 0.2 and len(classes) >= 2:
+        if rng.random() < 0.25 and len(classes) >= 2:
             b2 = rng.randrange(len(classes))
             if b2 != b:
                 bases.append(b2)
@@ -360,28 +405,71 @@ def gen_history(rng, stream: str = "main", max_ops: int = 40) -> Hist:
         bases = union_order.setdefault(frozenset(bases), bases)
         sub, sup = rng.choice([(True, False), (True, False), (True, True), (True, True), (False, True)])
         # (X2) known finding nofield-inherited-unpacker: no-field mode through a nailed holder over plain dataclasses
-        if stream != "kf" and kind == "nofield" and wiring != "codec" and any(classes[x]["plain"] for x in bases):
+        if stream != "kf" and not mode_field and wiring != "codec" and any(classes[x]["plain"] for x in bases):
             wiring = "codec"
         shape = rng.choice(INNER_SHAPES)
-        if len(bases) == 1 and rng.random() < 0.35:
-            shape = rng.choice(OUTER_SHAPES)
-        s = {"wiring": wiring, "bases": bases, "sub": sub, "sup": sup, "field": kind == "field", "fid": rng.choice(key_ids),
-             "tagger": use_tagger and rng.random() < 0.6, "config": False, "shape": shape,
-             "name": ("DEC" if wiring == "codec" else "H") + str(len(sites))}
-        sites.append(s)
+        if rng.random() < 0.35:
+            # the Discriminator around the container; a Union base below Optional flattens to Union[A, B, None]
+            shape = rng.choice(OUTER_SHAPES if (len(bases) == 1 or mode_field) else ["a_list", "a_dict"])
+        tagger = mode_field and use_tagger and rng.random() < 0.6
+        # (X4) known finding optional-union-nonetype-variant: Optional[Union[A, B]] flattens to Union[A, B, None]; with
+        # include_supertypes NoneType is a variant and a tagger makes the refill compile it (TypeError)
+        if shape in ("a_opt", "a_listopt") and len(bases) > 1 and sup and tagger:
+            shape = "a_list"
+        return {"wiring": wiring, "bases": bases, "sub": sub, "sup": sup, "field": mode_field, "fid": rng.choice(key_ids),
+                "tagger": tagger, "tgid": rng.randrange(2), "config": False, "shape": shape}
+
+    def new_site():
+        nonlocal other_sites
+        wiring = "holder" if stream == "kf" else rng.choice(["holder", "holder", "holder", "codec", "codec"])
         other_sites += 1
-        script.append({"op": "exec", "src": site_create_src(s)})
+        if wiring == "holder" and stream != "kf" and has_tags and rng.random() < 0.3:
+            # ONE holder with several discriminated fields: several sites, one call decodes them in field order
+            k = rng.choice([2, 2, 3])
+            hname = "H" + str(len(sites))
+            dial = use_dialects and rng.random() < 0.5
+            protos = []
+            for j in range(k):
+                s = site_settings("holder", True)
+                s["wiring"] = "holder"
+                s.update({"name": hname, "vfield": f"v{j}", "dialects": dial})
+                protos.append(s)
+            unit = {}
+            for d in ([None, "D1", "D2"] if dial else [None]):
+                unit[d] = []
+                for s in protos:
+                    sites.append(dict(s))
+                    unit[d].append(len(sites) - 1)
+            src = f"@dataclass\nclass {hname}(DataClassDictMixin):\n" + "".join(
+                f"    {s['vfield']}: {site_type_src(s)}\n" for s in protos)
+            if dial:
+                src += "    class Config(BaseConfig):\n        code_generation_options = [ADD_DIALECT_SUPPORT]\n"
+            units.append(unit)
+            script.append({"op": "exec", "src": src, **({"module": "b"} if rng.random() < 0.3 else {})})
+            op_of_step.append(None)
+            return
+        s = site_settings(wiring, pick_mode() if stream != "kf" else False)
+        s["name"] = ("DEC" if s["wiring"] == "codec" else "H") + str(len(sites))
+        s["dialects"] = use_dialects and stream != "kf" and rng.random() < 0.5
+        unit = {}
+        for d in ([None, "D1", "D2"] if (s["dialects"] and s["wiring"] == "holder") else [None]):
+            sites.append(dict(s))
+            unit[d] = [len(sites) - 1]
+        units.append(unit)
+        # a holder may live in another module than the classes it dispatches over
+        script.append({"op": "exec", "src": site_create_src(s), **({"module": "b"} if (s["wiring"] == "holder" and rng.random() < 0.3) else {})})
         op_of_step.append(None)
 
-    def decode():
-        si = rng.randrange(len(sites))
-        s = sites[si]
+    def gen_input(s: dict):
+        """(keys {key id: tag}, present fields, input dict) for one decode through site s"""
         inp: dict = {}
-        if kind == "field":
+        keys: dict = {}
+        present: list[int] = []
+        elig = gen_eligible(s)
+        fam = {root_of[b] for b in s["bases"]}
+        if has_tags:
             r = rng.random()
             pool = []
-            fam = {root_of[b] for b in s["bases"]}
-            elig = gen_eligible(s)
             narrow = rng.random() < 0.7 and elig
             for c in classes:
                 if narrow and c["id"] not in elig:
@@ -389,7 +477,7 @@ def gen_history(rng, stream: str = "main", max_ops: int = 40) -> Hist:
                 if root_of[c["id"]] not in fam and rng.random() < 0.8:
                     continue
                 if s["tagger"]:
-                    pool.extend(c["ttags"] or [])
+                    pool.extend((c["ttags"] or {}).get(s.get("tgid", 0), []))
                 elif s["fid"] in c["own_tags"]:
                     pool.append(c["own_tags"][s["fid"]])
             if r < 0.08:
@@ -401,25 +489,28 @@ def gen_history(rng, stream: str = "main", max_ops: int = 40) -> Hist:
             else:
                 t = rng.randrange(0, max(1, next_tag[0] + 2))
             t = None if t is None else min(t, N_ENUM - 1)
-            keys: dict = {}
-            if t is not None:
+            if t is not None and (s["field"] or rng.random() < 0.5):
                 keys[s["fid"]] = t
             for fid in key_ids:          # the other key name: present (tag of some class / anything) or absent
                 if fid != s["fid"] and rng.random() < 0.6:
-                    other = [c["own_tags"][fid] for c in classes if fid in c["own_tags"]] + [x for c in classes for x in (c["ttags"] or [])]
+                    other = [c["own_tags"][fid] for c in classes if fid in c["own_tags"]]
+                    other += [x for c in classes for tgs in (c["ttags"] or {}).values() for x in tgs]
                     keys[fid] = min(rng.choice(other) if other and rng.random() < 0.8 else rng.randrange(0, next_tag[0] + 3), N_ENUM - 1)
             for fid, tg in keys.items():
                 inp[FIELDS[fid]] = tag_value(style, tg, rng.randrange(8) if free_spelling else 0)   # key present, whatever the value
-            if rng.random() < 0.5:
+            if s["field"] and rng.random() < 0.04:
+                # a value that is not hashable cannot be anybody's tag (model: Unhashable)
+                keys[s["fid"]] = "U"
+                inp[FIELDS[s["fid"]]] = rng.choice([[1], {"a": 1}, [], [["t1"]]])
+            if kind == "field" and rng.random() < 0.5:
                 inp["x"] = rng.randrange(0, 9)
-            present: list[int] = []
-        else:
-            keys = {}
-            fam = {root_of[b] for b in s["bases"]}
+        if has_req:
             famc = [c for c in classes if root_of[c["id"]] in fam]
-            elig = gen_eligible(s)
             if elig and rng.random() < 0.6:
                 famc = [c for c in classes if c["id"] in elig]
+            if keys.get(s["fid"]) is not None and rng.random() < 0.6:      # the fields of the class the tag points at
+                hit = [c for c in classes if c["own_tags"].get(s["fid"]) == keys[s["fid"]]]
+                famc = hit or famc
             c = rng.choice(famc if famc and rng.random() < 0.85 else classes)
             present = sorted(set(full_req(c["id"])))
             r = rng.random()
@@ -429,12 +520,36 @@ def gen_history(rng, stream: str = "main", max_ops: int = 40) -> Hist:
                 present = sorted(set(present + [rng.randrange(next_field[0])]))
             for f in present:
                 inp[f"f{f}"] = f
-        ops.append(("decode", si, dict(keys), present))
-        step = decode_step(s, inp)
-        if s["wiring"] == "config" and s.get("dialects"):
-            d = rng.choice([None, "D1", "D2"])
-            if d:
-                step["dialect"] = d
+        if use_kerr and rng.random() < 0.3:
+            inp["kerr"] = 1
+            present = present + [KERR_MARKER]
+        return keys, present, inp
+
+    def decode():
+        by_dialect = rng.choice(units)
+        dialect = rng.choice(sorted(by_dialect, key=str))
+        unit = by_dialect[dialect]
+        s = sites[unit[0]]
+        if len(unit) == 1 and stream != "kf" and rng.random() < 0.04:
+            # the input is not a mapping (never None: the Optional shapes answer None themselves)
+            ops.append(("decodebad", unit[0]))
+            step = decode_step(s, rng.choice([[1, 2], 5, "abc", 1.5, [], True]))
+            if dialect:
+                step["dialect"] = dialect
+            script.append(step)
+            op_of_step.append(len(ops) - 1)
+            return
+        if len(unit) == 1:
+            keys, present, inp = gen_input(s)
+            ops.append(("decode", unit[0], dict(keys), present))
+            step = decode_step(s, inp)
+        else:
+            parts = [gen_input(sites[i]) for i in unit]
+            ops.append(("decodeseq", [(i, dict(k), pr) for i, (k, pr, _) in zip(unit, parts)]))
+            step = {"op": "decode", "call": f"{s['name']}.from_dict", "holder": False, "shape": None, "input": None,
+                    "multi": [[sites[i]["vfield"], sites[i]["shape"], pt[2]] for i, pt in zip(unit, parts)]}
+        if dialect:
+            step["dialect"] = dialect
         script.append(step)
         op_of_step.append(len(ops) - 1)
 
@@ -471,7 +586,7 @@ def gen_history(rng, stream: str = "main", max_ops: int = 40) -> Hist:
             new_site()
         elif r < 0.42 and len(classes) < 14:
             define(pick_parents())
-        elif sites:
+        elif units:
             decode()
         else:
             new_site()
@@ -496,9 +611,29 @@ class Sandbox:
         self.mod = types.ModuleType(self.name)
         sys.modules[self.name] = self.mod
         self.ns = self.mod.__dict__
+        self.mod_b = None
+
+    def exec_step(self, step: dict, label: str):
+        """class/holder/codec definitions; a step marked module "b" is executed in a SECOND module that imports the
+        first one's names (a holder living in another module than the classes it dispatches over)"""
+        if step.get("module") != "b":
+            exec(compile(step["src"], f"<{self.name}:{label}>", "exec"), self.ns)
+            return
+        if self.mod_b is None:
+            self.mod_b = types.ModuleType(self.name + "_b")
+            sys.modules[self.name + "_b"] = self.mod_b
+        nsb = self.mod_b.__dict__
+        exec(f"from {self.name} import *", nsb)
+        exec(compile(step["src"], f"<{self.name}_b:{label}>", "exec"), nsb)
+        for k, v in list(nsb.items()):
+            if getattr(v, "__module__", None) == self.name + "_b" and isinstance(v, type):
+                self.ns[k] = v
 
     def close(self):
         sys.modules.pop(self.name, None)
+        sys.modules.pop(self.name + "_b", None)
+        if self.mod_b is not None:
+            self.mod_b.__dict__.clear()
         self.ns.clear()
 
 
@@ -513,7 +648,33 @@ def unwrap_exc(e: BaseException):
             return "notfound"
         cur = cur.__cause__ or cur.__context__
         seen += 1
+    # the selected class rejects the input itself: the innermost MissingField / InvalidFieldValue names that class
+    from mashumaro.exceptions import InvalidFieldValue, MissingField
+    chain = []
+    cur = e
+    while cur is not None and len(chain) < 6:
+        chain.append(cur)
+        cur = cur.__cause__ or cur.__context__
+    for c in reversed(chain):
+        if isinstance(c, (MissingField, InvalidFieldValue)):
+            hc = getattr(c, "holder_class", None)
+            name = getattr(hc, "__name__", "")
+            if name.startswith("C") and name[1:].isdigit():
+                return "rej:" + name
+            break
     return "exc:" + type(e).__name__
+
+
+def outcome_of_exc(e: BaseException):
+    u = unwrap_exc(e)
+    if u.startswith("exc:"):
+        cur, n = e, 0
+        while cur is not None and n < 6:       # the dispatcher's own answer to a non-mapping input
+            if type(cur) is ValueError and "discriminated by" in str(cur) and "should be a dict instance" in str(cur):
+                return ("notdict",)
+            cur = cur.__cause__ or cur.__context__
+            n += 1
+    return ("rej", u[4:]) if u.startswith("rej:") else (u,)
 
 
 def do_decode(ns: dict, step: dict):
@@ -525,8 +686,15 @@ def do_decode(ns: dict, step: dict):
         try:
             r = fn(step["arg"])
         except Exception as e:  # noqa: BLE001 - classified below
-            return (unwrap_exc(e),)
+            return outcome_of_exc(e)
         return ("inst", type(getattr(r, step["pick"])).__name__)
+    if step.get("multi"):                  # one call of a holder with several discriminated fields
+        arg = {f: SHAPES[sh][1](i) for f, sh, i in step["multi"]}
+        try:
+            r = fn(arg, dialect=ns[step["dialect"]]) if step.get("dialect") else fn(arg)
+            return ("many", [type(SHAPES[sh][2](getattr(r, f))).__name__ for f, sh, _ in step["multi"]])
+        except Exception as e:  # noqa: BLE001 - classified below
+            return outcome_of_exc(e)
     shape = SHAPES[step["shape"]] if step.get("shape") else None
     arg = shape[1](inp) if shape else inp
     if step.get("holder"):
@@ -538,7 +706,7 @@ def do_decode(ns: dict, step: dict):
         if shape:
             r = shape[2](r)
     except Exception as e:  # noqa: BLE001 - classified below
-        return (unwrap_exc(e),)
+        return outcome_of_exc(e)
     return ("inst", type(r).__name__)
 
 
@@ -559,7 +727,7 @@ def spec_eligible(ns: dict, n_classes: int, s: dict) -> list:
 
 def spec_own_tags(ns: dict, c, s: dict) -> list:
     if s["tagger"]:
-        v = ns["TAGS"].get(c.__name__, [])
+        v = ns["TAGS"][s.get("tgid", 0)].get(c.__name__, [])
         return v if type(v) is list else [v]
     fname = FIELDS[s.get("fid", 0)]
     return [c.__dict__[fname]] if fname in c.__dict__ else []
@@ -577,6 +745,10 @@ def spec_field(ns: dict, n_classes: int, s: dict, inp: dict):
     if fname not in inp:             # key absent (a key present with a falsy value or None is present)
         return ("missing",), None
     t = inp[fname]
+    try:
+        hash(t)
+    except TypeError:                # a value that cannot be a dict key is nobody's tag (/repo db5b89f)
+        return ("notfound",), None
     car = [c for c in spec_eligible(ns, n_classes, s) if any(t == v for v in spec_own_tags(ns, c, s))]
     if len(car) == 1:
         c = car[0]
@@ -589,15 +761,27 @@ def spec_field(ns: dict, n_classes: int, s: dict, inp: dict):
             if d.field is None or d.field not in FIELDS:
                 return None, True
             inner = {"bases": [int(c.__name__[1:])], "sub": True, "sup": False, "config": True, "field": True,
-                     "tagger": d.variant_tagger_fn is not None, "fid": FIELDS.index(d.field)}
+                     "tagger": d.variant_tagger_fn is not None, "fid": FIELDS.index(d.field),
+                     "tgid": 1 if d.variant_tagger_fn is ns.get("tagger1") else 0}
             return spec_field(ns, n_classes, inner, inp)[0], True
+        if leaks_keyerror(ns, c, inp):     # the selected class's own from_dict raises KeyError: that error (or anything but
+            return ("keyerr", c.__name__), True      # "no suitable variant") should surface - known finding variant-keyerror-misreported
+        if not spec_accepts(ns, c, inp):   # selected, but the class itself rejects the input: its own error surfaces
+            return ("rej", c.__name__), True
         return ("inst", c.__name__), True
     if not car:
         return ("notfound",), True
     return None, False
 
 
-def spec_accepts(c, inp: dict) -> bool:
+def leaks_keyerror(ns: dict, c, inp: dict) -> bool:
+    hook = getattr(c, "__pre_deserialize__", None)
+    return hook is not None and getattr(hook, "__func__", None) is ns.get("kerr_hook") and "kerr" in inp
+
+
+def spec_accepts(ns: dict, c, inp: dict) -> bool:
+    if leaks_keyerror(ns, c, inp):
+        return False
     return all(f.name in inp for f in dataclasses.fields(c)
                if f.init and f.default is dataclasses.MISSING and f.default_factory is dataclasses.MISSING)
 
@@ -610,8 +794,8 @@ def spec_nofield_check(ns: dict, n_classes: int, s: dict, inp: dict, obs) -> tup
     if any(has_cfg(c) for c in el):  # (X1) = hypothesis no_nested of C12_nofield: the property is silent
         return None, [], []
     subs = [c for c in el if any(c is not b and issubclass(c, b) for b in bases) and s["sub"]]
-    acc_sub = [c for c in subs if spec_accepts(c, inp)]
-    acc_all = [c for c in el if spec_accepts(c, inp)]
+    acc_sub = [c for c in subs if spec_accepts(ns, c, inp)]
+    acc_all = [c for c in el if spec_accepts(ns, c, inp)]
     acc_sup = [c for c in acc_all if c not in subs]
     if obs[0] == "notfound":
         return ("no class chosen although " + acc_all[0].__name__ + " is eligible and accepts" if acc_all else None), acc_sub, acc_sup
@@ -621,7 +805,7 @@ def spec_nofield_check(ns: dict, n_classes: int, s: dict, inp: dict, obs) -> tup
     if obs[1] not in names:
         return f"{obs[1]} is not eligible", acc_sub, acc_sup
     c = names[obs[1]]
-    if not spec_accepts(c, inp):
+    if not spec_accepts(ns, c, inp):
         return f"{obs[1]} does not accept the input", acc_sub, acc_sup
     if c not in subs and acc_sub:
         return f"supertype {obs[1]} chosen although subclass {acc_sub[0].__name__} accepts", acc_sub, acc_sup
@@ -658,12 +842,40 @@ def run_history(h: Hist):
         for k, step in enumerate(h.script):
             oi = h.op_of_step[k]
             if step["op"] == "exec":
-                exec(compile(step["src"], f"<{sb.name}:{k}>", "exec"), ns)
+                sb.exec_step(step, str(k))
                 if oi is not None:
                     n_classes += 1
                 continue
             op = h.ops[oi]
+            if op[0] == "decodeseq":
+                # one call of a holder with several discriminated fields: every field by its own site, first error wins
+                obs = do_decode(ns, step)
+                observed[oi] = obs
+                exp = ("many", [])
+                for (si, _, _), (_, _, finp) in zip(op[1], step["multi"]):
+                    e1, _ = spec_field(ns, n_classes, h.sites[si], finp)
+                    if e1 is None:
+                        exp = None
+                        break
+                    if e1[0] != "inst":
+                        exp = e1
+                        break
+                    exp[1].append(e1[1])
+                if exp is not None and exp != obs:
+                    kf = exp[0] == "keyerr" and obs == ("notfound",)
+                    fails.append((k, f"{step['call']}({ {f: i for f, _, i in step['multi']} }) -> {fmt(obs)}, expected {fmt(exp)}",
+                                  fmt(exp), fmt(obs), {"kind": "variant-keyerror-misreported" if kf else "field-dispatch", "wiring": "holder-multi"}))
+                continue
             s = h.sites[op[1]]
+            if op[0] == "decodebad":
+                obs = do_decode(ns, step)
+                observed[oi] = obs
+                # a field dispatcher names the problem (ValueError, /repo 60866ea); without a key nobody accepts the input
+                exp = ("notdict",) if s["field"] else ("notfound",)
+                if obs != exp and (s["field"] or obs[0] == "inst"):
+                    fails.append((k, f"{step['call']}({step['input']!r}) -> {fmt(obs)}, expected {fmt(exp)}", fmt(exp), fmt(obs),
+                                  {"kind": "non-mapping-input", "wiring": s["wiring"]}))
+                continue
             shadow = shadowed(ns, n_classes) if not s["field"] else set()
             obs = do_decode(ns, step)
             observed[oi] = obs
@@ -671,8 +883,9 @@ def run_history(h: Hist):
                 exp, uq = spec_field(ns, n_classes, s, step["input"])
                 flags[oi] = uq
                 if exp is not None and exp != obs:
+                    kf = exp[0] == "keyerr" and obs == ("notfound",)
                     fails.append((k, f"{step['call']}({step['input']}) -> {fmt(obs)}, expected {fmt(exp)}",
-                                  fmt(exp), fmt(obs), {"kind": "field-dispatch", "wiring": s["wiring"]}))
+                                  fmt(exp), fmt(obs), {"kind": "variant-keyerror-misreported" if kf else "field-dispatch", "wiring": s["wiring"]}))
             else:
                 why, acc_sub, acc_sup = spec_nofield_check(ns, n_classes, s, step["input"], obs)
                 if why is not None:
@@ -702,6 +915,14 @@ def fmt(o) -> str:
         return "-"
     if o[0] == "inst":
         return o[1]
+    if o[0] == "rej":
+        return "rejected by " + o[1]
+    if o[0] == "keyerr":
+        return "KeyError of " + o[1]
+    if o[0] == "many":
+        return "+".join(o[1])
+    if o[0] == "notdict":
+        return "ValueError(should be a dict instance)"
     return {"missing": "MissingDiscriminatorError", "notfound": "SuitableVariantNotFoundError"}.get(o[0], o[0])
 
 
@@ -717,18 +938,27 @@ def coq_pairs(d: dict) -> str:
     return "[" + "; ".join(f"({int(k)}, {int(v)})" for k, v in sorted(d.items())) + "]"
 
 
+def coq_inkeys(d: dict) -> str:
+    return "[" + "; ".join(f"({int(k)}, {'Unhashable' if v == 'U' else 'Hashable %d' % int(v)})" for k, v in sorted(d.items())) + "]"
+
+
 def coq_site(s: dict) -> str:
     b = vlib.coq_bool
     return (f"Site {coq_nats(s['bases'])} {b(s['sub'])} {b(s['sup'])} {b(s['field'])} {b(s['tagger'])} {b(s['config'])} "
-            f"{b(s['wiring'] == 'codec')} {int(s.get('fid', 0))}")
+            f"{b(s['wiring'] == 'codec')} {int(s.get('fid', 0))} {int(s.get('tgid', 0))}")
 
 
 def coq_op(op) -> str:
     if op[0] == "define":
-        _, ps, tg, tt, rq = op
-        return f"Define {coq_nats(ps)} {coq_pairs(tg)} {coq_nats(tt)} {coq_nats(rq)}"
+        _, ps, tg, tt, rq, ke = op
+        tts = "[" + "; ".join(f"({int(g)}, {coq_nats(l)})" for g, l in sorted(tt.items())) + "]"
+        return f"Define {coq_nats(ps)} {coq_pairs(tg)} {tts} {coq_nats(rq)} {vlib.coq_bool(ke)}"
+    if op[0] == "decodeseq":
+        return "DecodeSeq [" + "; ".join(f"({si}, {coq_inkeys(k)}, {coq_nats(pr)})" for si, k, pr in op[1]) + "]"
+    if op[0] == "decodebad":
+        return f"DecodeBad {op[1]}"
     _, si, keys, present = op
-    return f"Decode {si} {coq_pairs(keys)} {coq_nats(present)}"
+    return f"Decode {si} {coq_inkeys(keys)} {coq_nats(present)}"
 
 
 def coq_outcome(o) -> str:
@@ -743,6 +973,12 @@ def coq_outcome(o) -> str:
         return "Some OMissing"
     if o[0] == "notfound":
         return "Some ONotFound"
+    if o[0] == "notdict":
+        return "Some ONotDict"
+    if o[0] == "rej" and o[1].startswith("C") and o[1][1:].isdigit():
+        return f"Some (ORej {int(o[1][1:])})"
+    if o[0] == "many" and all(n.startswith("C") and n[1:].isdigit() for n in o[1]):
+        return "Some (OMany " + coq_nats([int(n[1:]) for n in o[1]]) + ")"
     return "Some OBadSite"          # never produced by the model on a valid site: forces a mismatch
 
 
@@ -770,18 +1006,23 @@ def build_fixed(kind: str, style: str, classes_spec: list, sites_spec: list, eve
         if ev[0] == "define":
             spec = dict(classes_spec[ev[1]])
             own_tags = dict(spec.get("own_tags") or ({0: spec["own_tag"]} if spec.get("own_tag") is not None else {}))
+            tt = spec.get("ttags", {} if kind == "field" else None)
+            if isinstance(tt, list):
+                tt = {0: tt}
             c = {"id": len(classes), "parents": spec.get("parents", []), "own_tags": own_tags,
-                 "ttags": spec.get("ttags", [] if kind == "field" else None), "ttag_bare": spec.get("bare", False),
+                 "ttags": tt, "ttag_bare": spec.get("bare", False), "kerr": spec.get("kerr", False),
                  "own_js": {fid: spec.get("own_j", 0) for fid in own_tags}, "ttag_js": spec.get("ttag_js"),
                  "own_req": spec.get("own_req", []), "decl": spec.get("decl", "field"), "plain": spec.get("plain", False),
                  "config": spec.get("config")}
             classes.append(c)
-            ops.append(("define", list(c["parents"]), dict(own_tags), list(c["ttags"] or []), list(c["own_req"])))
+            ops.append(("define", list(c["parents"]), dict(own_tags), {g: list(t) for g, t in (tt or {}).items()},
+                        list(c["own_req"]) if kind != "field" else [], c["kerr"]))
             script.append({"op": "exec", "src": class_src(c, style, kind)})
             op_of_step.append(len(ops) - 1)
             if c["config"] is not None:
                 s = dict(c["config"])
                 s.setdefault("fid", 0)
+                s.setdefault("tgid", 0)
                 s.update({"wiring": "config", "bases": [c["id"]], "config": True, "name": f"C{c['id']}"})
                 site_index[("config", c["id"])] = len(sites)
                 sites.append(s)
@@ -791,38 +1032,93 @@ def build_fixed(kind: str, style: str, classes_spec: list, sites_spec: list, eve
             if wiring == "holder_list":
                 wiring, shape = "holder", "list"
             s = {"wiring": wiring, "bases": spec["bases"], "sub": spec.get("sub", True), "sup": spec.get("sup", False),
-                 "field": kind == "field", "tagger": spec.get("tagger", False), "config": False, "fid": spec.get("fid", 0),
+                 "field": spec.get("field", kind != "nofield"), "tagger": spec.get("tagger", False), "config": False, "fid": spec.get("fid", 0),
+                 "tgid": spec.get("tgid", 0), "dialects": spec.get("dialects", False),
                  "shape": shape, "name": ("DEC" if wiring == "codec" else "H") + str(len(sites))}
             site_index[("site", ev[1])] = len(sites)
             sites.append(s)
-            script.append({"op": "exec", "src": site_create_src(s)})
+            if s["dialects"] and wiring == "holder":      # one model site (own registries) per call-time dialect
+                sites.append(dict(s))
+                sites.append(dict(s))
+            script.append({"op": "exec", "src": site_create_src(s), **({"module": "b"} if spec.get("module") == "b" else {})})
             op_of_step.append(None)
         else:
             _, skey, t, present = ev[:4]
             j = ev[4] if len(ev) > 4 else 0
             si = site_index[skey]
             s = sites[si]
+            if len(ev) > 6 and ev[6] and s["dialects"] and s["wiring"] == "holder":
+                si += {"D1": 1, "D2": 2}[ev[6]]
             inp = {}
             keys = {}
-            if kind == "field":
+            if kind != "nofield":
                 if t is not None:
                     keys[s.get("fid", 0)] = t
                 if len(ev) > 5:                      # further keys {key id: tag}
                     keys.update(ev[5])
                 for fid, tg in keys.items():
                     inp[FIELDS[fid]] = tag_value(style, tg, j)
-            else:
+            if kind != "field":
                 for f in present:
-                    inp[f"f{f}"] = f
+                    if f == KERR_MARKER:
+                        inp["kerr"] = 1
+                    else:
+                        inp[f"f{f}"] = f
+            elif KERR_MARKER in present:
+                inp["kerr"] = 1
             ops.append(("decode", si, keys, list(present)))
-            script.append(decode_step(s, inp))
+            st_ = decode_step(s, inp)
+            if len(ev) > 6 and ev[6]:
+                st_["dialect"] = ev[6]
+            script.append(st_)
             op_of_step.append(len(ops) - 1)
     return Hist(kind, style, sites, ops, script, op_of_step,
                 {"kind": kind, "style": style, "unique": None, "classes": classes, "stream": "fixed"})
 
 
+def fixed_multi() -> Hist:
+    """ONE holder with two discriminated fields over two hierarchies: own key, own tagger function, own registry per field;
+    the same tag value means different classes at the two sites; late subclass; first failing field decides"""
+    style, kind = "str", "field"
+    mk = lambda cid, parents, tt: {"id": cid, "parents": parents, "own_tags": {}, "ttags": tt, "ttag_bare": False, "own_js": {},
+                                   "ttag_js": None, "kerr": False, "own_req": [], "decl": "plain", "plain": False, "config": None}
+    cls_ = [mk(0, [], {0: [], 1: []}), mk(1, [], {0: [], 1: []}), mk(2, [0], {0: [5], 1: [6]}), mk(3, [1], {0: [6], 1: [5]}),
+            mk(4, [1], {0: [5], 1: [7]})]
+    sites = [{"wiring": "holder", "bases": [0], "sub": True, "sup": False, "field": True, "tagger": True, "config": False, "fid": 0,
+              "tgid": 0, "shape": "plain", "name": "H0", "vfield": "v0", "dialects": False},
+             {"wiring": "holder", "bases": [1], "sub": True, "sup": False, "field": True, "tagger": True, "config": False, "fid": 1,
+              "tgid": 1, "shape": "a_list", "name": "H0", "vfield": "v1", "dialects": False}]
+    ops, script, op_of_step = [], [{"op": "exec", "src": PREAMBLE}], [None]
+
+    def define(c):
+        ops.append(("define", list(c["parents"]), {}, {g: list(t) for g, t in c["ttags"].items()}, [], False))
+        script.append({"op": "exec", "src": class_src(c, style, kind)})
+        op_of_step.append(len(ops) - 1)
+
+    def call(k0, k1):
+        parts = [(0, {0: k0} if k0 is not None else {}), (1, {1: k1} if k1 is not None else {})]
+        ops.append(("decodeseq", [(si, dict(k), []) for si, k in parts]))
+        script.append({"op": "decode", "call": "H0.from_dict", "holder": False, "shape": None, "input": None,
+                       "multi": [[sites[si]["vfield"], sites[si]["shape"], {FIELDS[f]: tag_value(style, t) for f, t in k.items()}]
+                                 for si, k in parts]})
+        op_of_step.append(len(ops) - 1)
+
+    for c in cls_[:4]:
+        define(c)
+    script.append({"op": "exec", "src": "@dataclass\nclass H0(DataClassDictMixin):\n" + "".join(
+        f"    {s_['vfield']}: {site_type_src(s_)}\n" for s_ in sites)})
+    op_of_step.append(None)
+    for k0, k1 in [(5, 5), (5, 6), (6, 5), (5, None), (None, 5), (5, 7)]:
+        call(k0, k1)
+    define(cls_[4])
+    for k0, k1 in [(5, 7), (5, 5), (9, 7), (5, 9)]:
+        call(k0, k1)
+    return Hist(kind, style, sites, ops, script, op_of_step,
+                {"kind": kind, "style": style, "unique": None, "classes": cls_, "stream": "fixed"})
+
+
 def fixed_histories() -> list[Hist]:
-    out = []
+    out = [fixed_multi()]
     cfg = {"field": True, "sub": True, "sup": False, "tagger": False}
     for style in ("str", "int", "enum"):
         # class defined after the first call / after decoder creation; class without own tag; three levels
@@ -886,11 +1182,37 @@ def fixed_histories() -> list[Hist]:
     # late subclass, unknown tag, absent key
     cl = [dict(), dict(parents=[0], own_tag=1), dict(parents=[1], own_tag=2, decl="classvar")]
     st = [dict(wiring=w, bases=[0], shape=sh) for sh in SHAPES for w in ("holder", "codec")]
+    st += [dict(wiring="holder", bases=[0], shape=sh, module="b") for sh in ("plain", "a_list", "dict")]   # holder in another module
     ev = [("define", 0), ("define", 1)] + [("site", k) for k in range(len(st))]
     ev += [("decode", ("site", k), 1, []) for k in range(len(st))] + [("define", 2)]
     for k in range(len(st)):
         ev += [("decode", ("site", k), 2, []), ("decode", ("site", k), 7, []), ("decode", ("site", k), None, [])]
     out.append(build_fixed("field", "mixed", cl, st, ev))
+    # call-time dialects: the FIRST call through a holder over plain variants carries dialect= (a variant compiled on demand
+    # gets its default method, /repo 523ca35), later subclass, other dialect, no dialect; codec with default_dialect
+    cl = [dict(plain=True), dict(parents=[0], own_tag=1, plain=True, decl="plain"), dict(parents=[1], own_tag=2, plain=True, decl="plain")]
+    st = [dict(wiring="holder", bases=[0], dialects=True), dict(wiring="codec", bases=[0], dialects=True),
+          dict(wiring="holder", bases=[0], dialects=True, shape="a_list")]
+    ev = [("define", 0), ("define", 1), ("site", 0), ("site", 1), ("decode", ("site", 0), 1, [], 0, {}, "D1"),
+          ("decode", ("site", 1), 1, []), ("define", 2), ("site", 2), ("decode", ("site", 2), 2, [], 0, {}, "D2"),
+          ("decode", ("site", 0), 2, [], 0, {}, "D2"), ("decode", ("site", 0), 2, []), ("decode", ("site", 1), 2, []),
+          ("decode", ("site", 2), 1, []), ("decode", ("site", 0), 7, [], 0, {}, "D1"), ("decode", ("site", 0), None, [], 0, {}, "D1")]
+    out.append(build_fixed("field", "str", cl, st, ev))
+    # mixed nesting: a no-field class-level dispatcher below a field one and a field one below a no-field one; a selected
+    # class that rejects the input; a class whose own from_dict leaks a KeyError (known finding)
+    cfg_nf = {"field": False, "sub": True, "sup": False, "tagger": False}
+    cl = [dict(config=cfg), dict(parents=[0], own_tag=1, config=cfg_nf, decl="plain"), dict(parents=[1], own_req=[7]),
+          dict(parents=[1], own_req=[8]), dict(parents=[1], own_req=[9], config=cfg), dict(parents=[4], own_tag=2, decl="plain"),
+          dict(parents=[0], own_tag=3, decl="plain", kerr=True)]
+    st = [dict(wiring="codec", bases=[0]), dict(wiring="holder", bases=[1], sup=True, field=False, shape="list")]
+    ev = [("define", k) for k in range(7)] + [("site", 0), ("site", 1)]
+    for skey in (("config", 0), ("site", 0)):
+        ev += [("decode", skey, 1, [8]), ("decode", skey, 1, []), ("decode", skey, 2, []), ("decode", skey, 2, [9]),
+               ("decode", skey, 3, []), ("decode", skey, 3, [KERR_MARKER]), ("decode", skey, None, [8])]
+    for skey in (("config", 1), ("site", 1)):
+        ev += [("decode", skey, 2, [9]), ("decode", skey, None, [9]), ("decode", skey, None, [7]), ("decode", skey, 1, []),
+               ("decode", skey, None, [7, KERR_MARKER])]
+    out.append(build_fixed("mixed", "str", cl, st, ev))
     # nested class-level dispatchers: own registry per declaring class (and per codec), class-level form never yields itself
     cl = [dict(config=cfg), dict(parents=[0], own_tag=1, config=cfg, decl="plain"), dict(parents=[1], own_tag=2, decl="plain"),
           dict(parents=[0], own_tag=3, decl="plain"), dict(parents=[1], own_tag=4, decl="plain")]
@@ -1002,11 +1324,66 @@ def probe_two_taggers(ctx: vlib.Ctx, n: int):
 
 
 # ---------------------------------------------------------------------------
+# region of known finding C12/optional-union-nonetype-variant (kept out of the main stream by (X4))
+# ---------------------------------------------------------------------------
+
+def probe_optional_union(ctx: vlib.Ctx, n: int):
+    rng = ctx.rng
+    for _ in range(n):
+        m = rng.randint(1, 3)
+        src = "def tgo(cls):\n    return 'o_' + cls.__name__\n@dataclass\nclass A0(DataClassDictMixin):\n    x: int = 0\n"
+        names = ["A0"]
+        for j in range(m):
+            parent = rng.choice(names)
+            src += f"@dataclass\nclass A{j + 1}({parent}):\n    pass\n"
+            names.append(f"A{j + 1}")
+        b1, b2 = rng.sample(names, 2) if len(names) > 1 else (names[0], names[0])
+        sub = rng.random() < 0.5
+        shape = rng.choice(["a_opt", "a_listopt"])
+        d = f"Discriminator(field='t', include_supertypes=True{', include_subtypes=True' if sub else ''}, variant_tagger_fn=tgo)"
+        wiring = rng.choice(["holder", "codec"])
+        ty = SHAPES[shape][0].format(T=f"Union[{b1}, {b2}]", D=d)
+        if wiring == "codec":
+            src += f"HO = BasicDecoder({ty})\n"
+        else:
+            src += f"@dataclass\nclass HO(DataClassDictMixin):\n    v: {ty}\n"
+        target = rng.choice([b1, b2])
+        step = {"op": "decode", "call": "HO.decode" if wiring == "codec" else "HO.from_dict", "holder": wiring == "holder",
+                "shape": shape, "input": {"t": "o_" + target}}
+        script = [{"op": "exec", "src": PREAMBLE}, {"op": "exec", "src": src}, step]
+        sb = Sandbox()
+        try:
+            exec(PREAMBLE, sb.ns)
+            exec(src, sb.ns)
+            root = ""
+            arg = SHAPES[shape][1](step["input"])
+            try:
+                r = getattr(sb.ns["HO"], "decode" if wiring == "codec" else "from_dict")({"v": arg} if wiring == "holder" else arg)
+                obs = ("inst", type(SHAPES[shape][2](r.v if wiring == "holder" else r)).__name__)
+            except Exception as e:  # noqa: BLE001 - classified below (only the FIRST call fails: the refill registers
+                obs = outcome_of_exc(e)   # the real classes before it trips over NoneType)
+                c = e
+                while c is not None:
+                    root += type(c).__name__ + ":" + str(c)[:80] + "|"
+                    c = c.__cause__ or c.__context__
+            ctx.count(("optional-union", shape, wiring, sub, obs[0]))
+            ctx.hist("wiring", wiring + "-optional-union")
+            exp = ("inst", target)
+            if obs != exp:
+                kf = obs[0].startswith("exc") and "immutable type 'NoneType'" in root
+                ctx.fail(f"{step['call']}({step['input']}) over {ty} -> {fmt(obs)}, expected {target}",
+                         {"entry": "history", "script": script, "failing_step": 2, "expected": target, "observed": fmt(obs)},
+                         {"kind": "optional-union-nonetype-variant" if kf else "field-dispatch", "wiring": wiring})
+        finally:
+            sb.close()
+
+
+# ---------------------------------------------------------------------------
 # the check
 # ---------------------------------------------------------------------------
 
-CODE_THEOREMS = ["C12_code_variants"]
-THEOREMS = ["C12_registry_invariant", "C12_registry", "C12_missing_tag", "C12_present_keys_not_missing", "C12_nested_missing_key", "C12_history_independent",
+CODE_THEOREMS = ["C12_code_variants", "C12_code_exceptions"]
+THEOREMS = ["C12_registry_invariant", "C12_registry", "C12_missing_tag", "C12_present_keys_not_missing", "C12_nested_missing_key", "C12_multi_field", "C12_variant_keyerror_refuted", "C12_unhashable_tag", "C12_non_mapping", "C12_history_independent",
             "C12_eligible_exact", "C12_nofield", "C12_trace_event", "C12_tag_unique_decidable",
             "C12_nonunique_order_dependent", "C12_class_level_self_excluded",
             "C12_nofield_inherited_unpacker_refuted"]
@@ -1019,22 +1396,18 @@ def make_replay(h: Hist, k: int, what: str, exp: str, obs: str) -> dict:
 
 def run(ctx: vlib.Ctx):
     ctx.coverage["rule"] = (
-        "random histories (6..40 ops) of 'define class' / 'create site' / 'decode' over real dynamically created "
-        "dataclasses (exec of source in a fresh module): 1-2 roots (mixin with Config.discriminator, mixin, plain), "
-        "multi-level and diamond hierarchies, non-root classes with their own class-level discriminator (nested dispatchers), "
-        "classes without own tag, tags as str/int/StrEnum/mixed declared as field/ClassVar/plain/Literal/Final, 40% of the field "
-        "histories draw tags from the value spectrum (0/False/0.0/IntEnum 0, ''/StrEnum '', None as a value, 1/True/1.0, -1, "
-        "'0', 'False', ' ' ...: ==-equal spellings are ONE abstract tag and are mixed between class attribute, tagger result "
-        "and input; a key present with a falsy value is distinct from an absent key), "
-        "variant_tagger_fn (bare or list result), sites = Config root (optionally called with dialect=) / Annotated holder "
-        "field / BasicDecoder over one class or a Union, the Discriminator annotation inside or around Optional/List/Dict/"
-        "Tuple (10 shapes, holder and codec), 1-2 discriminator key names per history (dispatchers of one hierarchy look at "
-        "different keys, a class carries a tag per key, each key independently present or absent in the input), "
-        "include_subtypes x include_supertypes, field "
-        "and no-field mode; decodes of present, future (class defined later), unknown and missing tags interleaved with "
-        "definitions and site creation; 25% of the histories have duplicate tags (correspondence only, oracle silent). "
-        "Plus 7 fixed edge histories and a stream inside the region of the known finding. distinct = (kind, wiring, sub, "
-        "sup, tagger, outcome kind, decode after a definition that followed the site's first decode, #bases)")
+        "random histories (6..40 ops) of 'define class' / 'create site' / 'decode' over real dynamically created dataclasses "
+        "(exec of source in fresh modules): kinds field / no-field / mixed (classes with tags AND required fields, every "
+        "dispatcher picks its mode: no-field dispatchers below field ones and vice versa, selected classes that reject the "
+        "input); 1-2 roots (mixin with Config.discriminator, mixin, plain), multi-level and diamond hierarchies, nested "
+        "class-level dispatchers, classes without own tag, tag value spectrum (falsy, None, bool/int/float/enum collisions, "
+        "unhashable values), 1-2 key names per history, two variant_tagger_fn functions (bare or list results), classes "
+        "whose own from_dict leaks a KeyError; sites = Config root / Annotated holder field / holder with 2-3 discriminated "
+        "fields (one call, several sites) / BasicDecoder, over one class or a Union, 10 annotation shapes, holders in the "
+        "classes' module or in another one, call-time dialects incl. first calls (one model site per holder x dialect), "
+        "codecs with default_dialect; inputs: present / future / unknown / absent keys, non-mapping inputs; 25% of the "
+        "histories have duplicate tags (correspondence only). Plus 14 fixed edge histories, the stream inside the known-"
+        "finding region of DiscrKF and two probes (several taggers in one holder, Optional-Union).")
     ctx.assumptions += [
         "tag uniqueness is required only for the decoded tag among the classes defined before the event (tag_unique); "
         "without it the result depends on the history (C12_nonunique_order_dependent, reproduced on /repo each run)",
@@ -1044,8 +1417,11 @@ def run(ctx: vlib.Ctx):
         "plain_carriers / no_nested, the nested behaviour itself is in the model and in the correspondence",
         "(X2) no-field mode through an Annotated holder over plain (non-mixin) dataclasses is generated only in the "
         "known-finding stream (finding C12/nofield-inherited-unpacker)",
-        "holders with several discriminated fields (each with its own variant_tagger_fn) are checked by the oracle only "
-        "(probe_two_taggers); the model has one registry and one tagger per site",
+        "(X4) Annotated[Optional[Union[..]], D] with include_supertypes and a tagger is generated only in the probe of known "
+        "finding C12/optional-union-nonetype-variant",
+        "C12_registry has the hypothesis no_keyerror (the selected class's own from_dict does not leak a KeyError); the "
+        "full statement is refuted in the faithful model (C12_variant_keyerror_refuted, known finding variant-keyerror-"
+        "misreported): the oracle reports those inputs as the known finding",
         "inputs are mappings with hashable tags (non-mapping / unhashable inputs belong to C05)",
     ]
     ctx.trusted += [
@@ -1132,8 +1508,18 @@ def run(ctx: vlib.Ctx):
                 for si in first_decode_seen:
                     n_def_after[si] = n_def_after.get(si, 0) + 1
                 continue
-            s = h.sites[op[1]]
             o = observed[oi]
+            if op[0] == "decodeseq":
+                first = op[1][0][0]
+                late = n_def_after.get(first, 0) > 0
+                ctx.count((h.kind, "holder-multi", len(op[1]), o[0] if o else "-", late,
+                           tuple(sorted({h.sites[si].get("tgid", 0) for si, _, _ in op[1] if h.sites[si]["tagger"]}))))
+                ctx.hist("wiring", "holder-multi" + ("+dialects" if h.sites[first].get("dialects") else ""))
+                ctx.hist("outcome", o[0] if o and o[0] != "many" else "instance")
+                ctx.hist("decode_after_late_definition", str(late))
+                first_decode_seen.add(first)
+                continue
+            s = h.sites[op[1]]
             late = n_def_after.get(op[1], 0) > 0
             ctx.count((h.kind, s["wiring"], s["sub"], s["sup"], s["tagger"], o[0] if o else "-", late, len(s["bases"]), s.get("shape", "-"), s.get("fid", 0) if h.meta.get("n_keys", 1) > 1 else "-"))
             ctx.hist("wiring", s["wiring"] + ("+dialects" if s.get("dialects") else ""))
@@ -1143,16 +1529,22 @@ def run(ctx: vlib.Ctx):
             first_decode_seen.add(op[1])
         ctx.hist("kind", h.kind)
         ctx.hist("tag_style", h.style.split(":")[0])
-        if h.kind == "field":
+        if h.kind in ("field", "mixed"):
             for st in h.script:
-                if st["op"] == "decode":
+                if st["op"] == "decode" and not isinstance(st.get("input"), dict) and not st.get("multi"):
+                    ctx.hist("input_tag_value", "input is not a mapping")
+                if st["op"] == "decode" and isinstance(st.get("input"), dict):
+                    if st.get("dialect"):
+                        ctx.hist("call_time_dialect", st["dialect"])
+                    if "kerr" in st["input"]:
+                        ctx.hist("input_with_keyerror_marker", "yes")
                     present_keys = [f for f in FIELDS if f in st["input"]]
                     ctx.hist("input_discriminator_keys", str(len(present_keys)) + " of " + str(h.meta.get("n_keys", 1)))
                     if not present_keys:
                         kind_v = "key absent"
                     else:
                         v = st["input"][present_keys[0]]
-                        kind_v = ("None" if v is None else "bool" if isinstance(v, bool) else
+                        kind_v = ("unhashable" if isinstance(v, (list, dict)) else "None" if v is None else "bool" if isinstance(v, bool) else
                                   "falsy " + type(v).__name__ if not v else type(v).__name__)
                     ctx.hist("input_tag_value", kind_v)
         ctx.hist("classes_per_history", str(min(len(h.meta["classes"]), 14)))
@@ -1201,6 +1593,7 @@ def run(ctx: vlib.Ctx):
 
     # ---- several discriminated fields with different tagger functions in one holder
     probe_two_taggers(ctx, ctx.budget(40, 400))
+    probe_optional_union(ctx, ctx.budget(20, 150))
 
     # ---- remark: without uniqueness the answer depends on the history (not a violation: the property is silent)
     h = [x for x in fixed_histories() if x.meta.get('tag') == 'nonunique'][0]
@@ -1231,7 +1624,7 @@ def replay(rep: dict) -> int:
         obs = None
         for k, step in enumerate(rep["script"]):
             if step["op"] == "exec":
-                exec(compile(step["src"], f"<replay:{k}>", "exec"), sb.ns)
+                sb.exec_step(step, f"replay{k}")
             else:
                 obs = do_decode(sb.ns, step)
                 print(f"step {k}: {step['call']}({step['input']}) -> {fmt(obs)}")
